@@ -94,7 +94,12 @@ def run(tier, rep, salt=0):
     problems = []
     keyerrors = 0
     for s, mo in zip(seqs, outs):
-        ro = real_states(s)
+        try:
+            ro = real_states(s)
+        except Exception as e:      # the class no longer has the interface the model describes
+            problems.append({'what': 'created_files.py cannot be driven as FB.CreatedFiles describes it: %s: %s' % (type(e).__name__, str(e)[:200]),
+                             'cmds': s[:1], 'real': None, 'model': None})
+            break
         rep.count('createdfiles_sequences')
         rep.count('createdfiles_commands', len(s))
         mm = [canon_model(x) for x in mo['outs']]
